@@ -10,6 +10,10 @@ def under(n):
 def lit(value, radix="hex"):
     if radix == "dec":
         return str(value)
+    if radix == "oct":
+        return oct(value)
+    if radix == "under":
+        return "{:_}".format(value)
     if radix == "bin":
         return bin(value)
     return hex(value)
